@@ -1,18 +1,18 @@
 /*
  * C19 -- ring buffer: explicit-state search to fixpoint over (implementation
- * state, model queue) pairs.  Three instances of the macro template: the
- * library's own octet_ring (uint8_t) and harness instantiations for uint16_t
- * and uint32_t.  In every reached state the observers size/empty/full and both
+ * state, model queue) pairs.  Six instances of the macro template: the
+ * library's own octet_ring (uint8_t) and harness instantiations for uint16_t,
+ * uint32_t, float, double and int64_t.  In every reached state the observers size/empty/full and both
  * iterators are run to completion and compared with a bounded deque.
  *
  * The statement speaks about get/put/clear/override, size/empty/full and the
  * iterators -- not about how the object encodes its state.  The implementation
  * part of a state is therefore the object's octet image (object zeroed, then
- * NAME##_init; the storage pointer is blanked in the key and re-pointed at a
- * fresh exact-size block when the state is restored) plus the storage cells.
- * No clause looks at head/tail/index values: a slot outside the storage is
- * observed by ASan on the exact-size block.  The only member the harness names
- * is `data` (it has to, to relocate the storage).
+ * NAME##_init; every word that points into the storage is replaced by its
+ * offset in the key and pointed at a fresh exact-size block when the state is
+ * restored) plus the storage cells.  No clause looks at head/tail/index
+ * values: a slot outside the storage is observed by ASan on the exact-size
+ * block.  The only member the harness names is `data` (geometry clause).
  *
  * Roots: init alone (the mode init chooses is not assumed: it is *probed* on a
  * fresh zeroed object -- fill, one more put, get -- and the model starts with
@@ -22,8 +22,9 @@
  * Object re-use: from every state of the home capacity the used object is
  * initialised again (NAME##_init on a fresh storage block) with capacity
  * cap-1, cap, cap+1, 1 and the largest capacity of the tier.  The model of the
- * result is the model of a freshly initialised ring (empty, probed mode): a
- * re-initialised ring has to behave like a fresh one.  If the resulting
+ * result is an empty ring of that capacity; its mode (the statement is silent:
+ * as fresh, or as configured before) is probed on a copy of the re-initialised
+ * object.  If the resulting
  * implementation state is identical to the fresh root of that capacity it is
  * not explored again (that root's own search does it); otherwise the search
  * continues from it to the fixpoint.
@@ -54,6 +55,27 @@ RING_BUFFER_ITER_API(ring32, uint32_t)
 RING_BUFFER(ring32, uint32_t)
 RING_BUFFER_ITER(ring32, uint32_t)
 
+/* element types that are not unsigned integers of at most 32 bits: a queue of
+ * floats or of 64-bit signed values is a queue all the same ("get returns the
+ * oldest element"), and the template is the same text for every TYPE.  Their
+ * element values are not representable in the types an implementation might
+ * carry an element in by mistake (fractions, negative values, values beyond
+ * 2^32); elements are compared by bit pattern. */
+RING_BUFFER_API(ringf, float)
+RING_BUFFER_ITER_API(ringf, float)
+RING_BUFFER(ringf, float)
+RING_BUFFER_ITER(ringf, float)
+
+RING_BUFFER_API(ringd, double)
+RING_BUFFER_ITER_API(ringd, double)
+RING_BUFFER(ringd, double)
+RING_BUFFER_ITER(ringd, double)
+
+RING_BUFFER_API(ring64s, int64_t)
+RING_BUFFER_ITER_API(ring64s, int64_t)
+RING_BUFFER(ring64s, int64_t)
+RING_BUFFER_ITER(ring64s, int64_t)
+
 #define MAXCAP 10
 
 enum { OP_PUT_A, OP_PUT_B, OP_GET, OP_CLEAR, OP_OVR_ON, OP_OVR_OFF, NOPS };
@@ -64,10 +86,11 @@ static const char *OPN[NOPS] = { "put(A)", "put(B)", "get", "clear", "override(o
 
 struct key {
     uint8_t cap;
-    uint8_t impl[IMPLMAX]; /* object image, storage pointer blanked */
-    uint32_t cell[MAXCAP];
+    uint16_t ptrmask;      /* which pointer-sized words of impl pointed into the storage */
+    uint8_t impl[IMPLMAX]; /* object image; words that pointed into the storage hold the offset into it */
+    uint64_t cell[MAXCAP]; /* storage cells, as bit patterns */
     uint8_t qlen, movr; /* model: length, override flag */
-    uint32_t q[MAXCAP]; /* model: oldest first */
+    uint64_t q[MAXCAP]; /* model: oldest first, as bit patterns */
 };
 
 static const char *
@@ -87,6 +110,45 @@ root_of(const struct mc_set *s, int64_t id)
     while (id >= 0 && s->parent[id] >= 0)
         id = s->parent[id];
     return id;
+}
+
+/* ---- pointers into the storage ------------------------------------------------
+ * The ring object may keep any number of pointers into its storage (the
+ * storage pointer itself, a cached write or read position, an end pointer).
+ * A state is restored on a fresh exact-size block, so every aligned
+ * pointer-sized word of the object image whose value lies in
+ * [storage, storage + cap * sizeof(TYPE)] is taken for such a pointer: in the
+ * key it is replaced by its offset into the storage (and flagged in ptrmask),
+ * on restore it is pointed at the same offset of the new block.  Keys and
+ * printed object images therefore never contain an address. */
+#define NPTRWORDS (IMPLMAX / sizeof(uintptr_t))
+
+static uint16_t
+image_blank_pointers(uint8_t *impl, size_t objsize, const void *mem, size_t bytes)
+{
+    uint16_t mask = 0;
+    for (size_t w = 0; w < objsize / sizeof(uintptr_t); ++w) {
+        uintptr_t v;
+        memcpy(&v, impl + w * sizeof v, sizeof v);
+        if (v >= (uintptr_t)mem && v <= (uintptr_t)mem + bytes) {
+            v -= (uintptr_t)mem;
+            memcpy(impl + w * sizeof v, &v, sizeof v);
+            mask |= (uint16_t)(1u << w);
+        }
+    }
+    return mask;
+}
+
+static void
+image_point_at(void *obj, size_t objsize, uint16_t mask, void *mem)
+{
+    for (size_t w = 0; w < objsize / sizeof(uintptr_t); ++w)
+        if (mask & (1u << w)) {
+            uintptr_t v;
+            memcpy(&v, (uint8_t *)obj + w * sizeof v, sizeof v);
+            v += (uintptr_t)mem;
+            memcpy((uint8_t *)obj + w * sizeof v, &v, sizeof v);
+        }
 }
 
 static const char *ROOTN[4] = { "init", "init+override(off)", "init+override(on)", "init(ff-object)" };
@@ -148,10 +210,37 @@ iter_history(rb_iter *it, int pk)
 
 static bool saw_evict, saw_drop;
 
+/* Bound on the state set of one search.  The searches of the unchanged library
+ * reach 78, 352, 520, 738, 2178, 6018, 15874, 40450, 100354, 243714 states at
+ * capacities 1..10 (two element values: about 24 * cap * 2^cap); a correct ring
+ * with more bookkeeping in its object (a cached position, a retained mode)
+ * multiplies that by a small factor.  Eight times (from capacity 7 on: four
+ * times) the fitted number is the limit; an object whose image never repeats
+ * runs into it within seconds. */
+static int64_t
+state_limit_for(size_t cap)
+{
+    const int64_t expected = 24 * (int64_t)cap * ((int64_t)1 << cap) + 400;
+    return expected * (cap <= 6 ? 8 : 4);
+}
+
 #define EXPLORER(NAME, TYPE, VA, VB, BIGVAL)                                                  \
+    /* an element as its bit pattern (little-endian host: zero-extended) and back */          \
+    static inline uint64_t bits_##NAME(TYPE v)                                                \
+    {                                                                                         \
+        uint64_t b = 0;                                                                       \
+        memcpy(&b, &v, sizeof v);                                                             \
+        return b;                                                                             \
+    }                                                                                         \
+    static inline TYPE val_##NAME(uint64_t b)                                                 \
+    {                                                                                         \
+        TYPE v;                                                                               \
+        memcpy(&v, &b, sizeof v);                                                             \
+        return v;                                                                             \
+    }                                                                                         \
     /* observers and both iterators against the queue q[0..qlen) (oldest first);          */  \
     /* itmask: which iterator-object histories to use                                     */  \
-    static void check_observers_##NAME(const NAME *c, const uint32_t *q, size_t qlen, size_t cap, unsigned itmask) \
+    static void check_observers_##NAME(const NAME *c, const uint64_t *q, size_t qlen, size_t cap, unsigned itmask) \
     {                                                                                         \
         size_t sz = NAME##_size(c);                                                           \
         bool em = NAME##_empty(c), fu = NAME##_full(c);                                       \
@@ -186,15 +275,15 @@ static bool saw_evict, saw_drop;
                     }                                                                         \
                     TYPE v = NAME##_inspect(c, &it);                                          \
                     if (steps < 24)                                                           \
-                        mc_log("iter object=%s dir=%d step=%zu value=%lx", ITN[pk], dir, steps, (unsigned long)v); \
+                        mc_log("iter object=%s dir=%d step=%zu value=%llx", ITN[pk], dir, steps, (unsigned long long)bits_##NAME(v)); \
                     if (steps >= qlen) {                                                      \
                         mc_fail(cl, "iterator object %s: yields more than the %zu queued elements", ITN[pk], qlen); \
                         break;                                                                \
                     }                                                                         \
-                    uint32_t want = dir ? q[qlen - 1 - steps] : q[steps];                     \
-                    if ((uint32_t)v != want) {                                                \
-                        mc_fail(cl, "iterator object %s: step %zu yields %lx, queue has %lx", ITN[pk], steps, \
-                                (unsigned long)v, (unsigned long)want);                       \
+                    uint64_t want = dir ? q[qlen - 1 - steps] : q[steps];                     \
+                    if (bits_##NAME(v) != want) {                                             \
+                        mc_fail(cl, "iterator object %s: step %zu yields %llx, queue has %llx", ITN[pk], steps, \
+                                (unsigned long long)bits_##NAME(v), (unsigned long long)want); \
                         break;                                                                \
                     }                                                                         \
                 }                                                                             \
@@ -209,16 +298,38 @@ static bool saw_evict, saw_drop;
         k->cap = (uint8_t)cap;                                                                \
         memset(k->impl, 0, sizeof k->impl);                                                   \
         memcpy(k->impl, c, sizeof *c);                                                        \
-        memset(k->impl + offsetof(NAME, data), 0, sizeof c->data);                            \
+        k->ptrmask = image_blank_pointers(k->impl, sizeof *c, mem, cap * sizeof(TYPE));       \
         for (size_t i = 0; i < MAXCAP; ++i)                                                   \
-            k->cell[i] = (i < cap) ? mem[i] : 0;                                              \
+            k->cell[i] = (i < cap) ? bits_##NAME(mem[i]) : 0;                                 \
     }                                                                                         \
     static void restore_##NAME(NAME *c, TYPE *mem, const struct key *k, size_t cap)           \
     {                                                                                         \
         for (size_t i = 0; i < cap; ++i)                                                      \
-            mem[i] = (TYPE)k->cell[i];                                                        \
+            mem[i] = val_##NAME(k->cell[i]);                                                  \
         memcpy(c, k->impl, sizeof *c);                                                        \
-        c->data = mem;                                                                        \
+        image_point_at(c, sizeof *c, k->ptrmask, mem);                                        \
+    }                                                                                         \
+    /* The mode an (empty) ring object is in, observed on a copy of it over storage of */     \
+    /* its own: fill, put one more, get.  0 dropped, 1 evicted, -1 neither.            */     \
+    static int probe_object_##NAME(const NAME *c, const TYPE *mem, size_t cap)                \
+    {                                                                                         \
+        struct key pk;                                                                        \
+        memset(&pk, 0, sizeof pk);                                                            \
+        snapshot_##NAME(&pk, c, mem, cap);                                                    \
+        TYPE *pmem = mc_exact(cap * sizeof(TYPE));                                            \
+        NAME pc;                                                                              \
+        restore_##NAME(&pc, pmem, &pk, cap);                                                  \
+        for (size_t i = 0; i < cap; ++i)                                                      \
+            NAME##_put(&pc, (TYPE)(0x21 + i));                                                \
+        NAME##_put(&pc, (TYPE)0x7e);                                                          \
+        const TYPE v = NAME##_get(&pc);                                                       \
+        free(pmem);                                                                           \
+        mc_log("mode probe on a copy: %zu puts, one more, get -> %llx", cap, (unsigned long long)bits_##NAME(v)); \
+        if (v == (TYPE)0x21)                                                                  \
+            return 0;                                                                         \
+        if (v == (TYPE)(cap == 1 ? 0x7e : 0x22))                                              \
+            return 1;                                                                         \
+        return -1;                                                                            \
     }                                                                                         \
     /* The mode a freshly initialised ring is in, observed: fill, put one more, get. */       \
     static int probe_##NAME(size_t cap)                                                       \
@@ -235,14 +346,14 @@ static bool saw_evict, saw_drop;
             NAME##_put(&c, (TYPE)(0x21 + i));                                                 \
         NAME##_put(&c, (TYPE)0x7e);                                                           \
         TYPE v = NAME##_get(&c);                                                              \
-        mc_log("get -> %lx", (unsigned long)v);                                               \
+        mc_log("get -> %llx", (unsigned long long)bits_##NAME(v));                            \
         if (v == (TYPE)0x21)                                                                  \
             mode = 0; /* the extra element was dropped */                                     \
         else if (v == (TYPE)(cap == 1 ? 0x7e : 0x22))                                         \
             mode = 1; /* the oldest element was evicted */                                    \
         else                                                                                  \
-            mc_fail("C19/put-full", "after %zu puts and one more, get returned %lx: neither dropped nor evicted", \
-                    cap, (unsigned long)v);                                                   \
+            mc_fail("C19/put-full", "after %zu puts and one more, get returned %llx: neither dropped nor evicted", \
+                    cap, (unsigned long long)bits_##NAME(v));                                 \
         free(mem);                                                                            \
         mc_end(true, mode ? "init-mode-override" : "init-mode-drop");                         \
         return mode;                                                                          \
@@ -311,7 +422,15 @@ static bool saw_evict, saw_drop;
             free(mem);                                                                        \
             mc_end(true, root == 0 ? "initial" : root == 3 ? "initial-dirty-object" : "override"); \
         }                                                                                     \
+        const int64_t state_limit = state_limit_for(cap);                                   \
         for (int64_t cur = 0; cur < (int64_t)set.n; ++cur) {                                  \
+            if ((int64_t)set.n > state_limit) {                                               \
+                /* an object that carries history (counters of dropped / evicted elements, a  \
+                 * generation number) never repeats its image: no fixpoint.  Stop at once. */ \
+                mc_cap(#NAME " capacity %zu: more than %lld distinct (object image, queue) states -- the object's image does not repeat (it carries counters?); search stopped, no fixpoint", \
+                       cap, (long long)state_limit);                                          \
+                break;                                                                        \
+            }                                                                                 \
             struct key k;                                                                     \
             memcpy(&k, mc_set_key(&set, cur), sizeof k);                                      \
             const size_t kcap = k.cap;                                                        \
@@ -357,7 +476,7 @@ static bool saw_evict, saw_drop;
                     if (m.qlen == kcap) {                                                     \
                         if (m.movr) {                                                         \
                             memmove(m.q, m.q + 1, (kcap - 1) * sizeof m.q[0]);                \
-                            m.q[kcap - 1] = v;                                                \
+                            m.q[kcap - 1] = bits_##NAME(v);                                   \
                             outcome = "put-evicts";                                           \
                             saw_evict = true;                                                 \
                         } else {                                                              \
@@ -365,22 +484,22 @@ static bool saw_evict, saw_drop;
                             saw_drop = true;                                                  \
                         }                                                                     \
                     } else {                                                                  \
-                        m.q[m.qlen++] = v;                                                    \
+                        m.q[m.qlen++] = bits_##NAME(v);                                       \
                         outcome = "put-stored";                                               \
                     }                                                                         \
                     break;                                                                    \
                 }                                                                             \
                 case OP_GET: {                                                                \
                     TYPE v = NAME##_get(&c);                                                  \
-                    mc_log("get -> %lx", (unsigned long)v);                                   \
+                    mc_log("get -> %llx", (unsigned long long)bits_##NAME(v));                \
                     if (m.qlen == 0) {                                                        \
                         outcome = "get-empty";                                                \
                         if (v != 0)                                                           \
-                            mc_fail("C19/get-empty-zero", "get on empty returned %lx", (unsigned long)v); \
+                            mc_fail("C19/get-empty-zero", "get on empty returned %llx", (unsigned long long)bits_##NAME(v)); \
                     } else {                                                                  \
                         outcome = "get-oldest";                                               \
-                        if ((uint32_t)v != m.q[0])                                            \
-                            mc_fail("C19/get-oldest", "get returned %lx, oldest is %lx", (unsigned long)v, (unsigned long)m.q[0]); \
+                        if (bits_##NAME(v) != m.q[0])                                         \
+                            mc_fail("C19/get-oldest", "get returned %llx, oldest is %llx", (unsigned long long)bits_##NAME(v), (unsigned long long)m.q[0]); \
                         memmove(m.q, m.q + 1, (MAXCAP - 1) * sizeof m.q[0]);                  \
                         m.q[MAXCAP - 1] = 0;                                                  \
                         m.qlen--;                                                             \
@@ -404,7 +523,7 @@ static bool saw_evict, saw_drop;
                     memset(nmem, 0xee, ncap * sizeof(TYPE));                                  \
                     NAME##_init(&c, nmem, ncap);                                              \
                     m.qlen = 0;                                                               \
-                    m.movr = (uint8_t)initmode[ncap]; /* as a fresh ring of that capacity */  \
+                    m.movr = (uint8_t)initmode[ncap]; /* probed on the object itself below */ \
                     outcome = "reinit";                                                       \
                     break;                                                                    \
                 }                                                                             \
@@ -422,6 +541,20 @@ static bool saw_evict, saw_drop;
                         mc_log("after: cap=%zu object=%s", ncap, hexof(hx2, sizeof hx2, m.impl, sizeof(NAME))); \
                     }                                                                         \
                     check_observers_##NAME(&c, m.q, m.qlen, ncap, ~0u);                       \
+                }                                                                             \
+                if (opi >= NOPS && sane && !mc.cur_failed) {                                  \
+                    /* the statement is silent on the mode of a ring that is initialised      \
+                     * again: as a fresh one, or the mode configured before -- either is a    \
+                     * correct queue.  Observed on a copy of the object (dropped or evicted), \
+                     * the model continues with what was seen. */                             \
+                    const int pm = probe_object_##NAME(&c, nmem, ncap);                       \
+                    if (pm < 0)                                                               \
+                        mc_fail("C19/put-full", "re-initialised ring of %zu: after %zu puts and one more, get returned neither the oldest nor the second element", \
+                                ncap, ncap);                                                  \
+                    else if (pm != initmode[ncap])                                            \
+                        outcome = "reinit-keeps-mode";                                        \
+                    if (pm >= 0)                                                              \
+                        m.movr = (uint8_t)pm;                                                 \
                 }                                                                             \
                 if (opi >= NOPS && sane && ncap != cap                                        \
                     && memcmp(&m, &fresh[ncap], sizeof m) == 0) {                             \
@@ -445,7 +578,7 @@ static bool saw_evict, saw_drop;
     {                                                                                         \
         const unsigned itmask = (1u << IT_FF) | (1u << IT_AUXA_DONE) | (1u << IT_SAME_OTHER_DIR); \
         const size_t total = rot + fill + (size_t)extra + 8;                                  \
-        uint32_t *hist = malloc(total * sizeof *hist); /* model: queue = hist[lo..hi) */      \
+        uint64_t *hist = malloc(total * sizeof *hist); /* model: queue = hist[lo..hi), bit patterns */ \
         size_t lo = 0, hi = 0, seq = 0;                                                       \
         TYPE *mem = mc_exact(cap * sizeof(TYPE));                                             \
         memset(mem, 0xee, cap * sizeof(TYPE));                                                \
@@ -458,12 +591,12 @@ static bool saw_evict, saw_drop;
         for (size_t i = 0; i < rot; ++i, ++seq) {                                             \
             const TYPE v = (TYPE)(BIGVAL(seq));                                               \
             NAME##_put(&c, v);                                                                \
-            hist[hi++] = v;                                                                   \
+            hist[hi++] = bits_##NAME(v);                                                                   \
         }                                                                                     \
         for (size_t i = 0; i < rot && !mc.cur_failed; ++i) {                                  \
             TYPE v = NAME##_get(&c);                                                          \
-            if ((uint32_t)v != hist[lo])                                                      \
-                mc_fail("C19/get-oldest", "rotation get %zu returned %lx, oldest is %lx", i, (unsigned long)v, (unsigned long)hist[lo]); \
+            if (bits_##NAME(v) != hist[lo])                                                   \
+                mc_fail("C19/get-oldest", "rotation get %zu returned %llx, oldest is %llx", i, (unsigned long long)bits_##NAME(v), (unsigned long long)hist[lo]); \
             lo++;                                                                             \
         }                                                                                     \
         mc_trans((int64_t)(2 * rot));                                                         \
@@ -474,13 +607,13 @@ static bool saw_evict, saw_drop;
             if (hi - lo == cap) {                                                             \
                 if (ovr) {                                                                    \
                     lo++;                                                                     \
-                    hist[hi++] = v;                                                           \
+                    hist[hi++] = bits_##NAME(v);                                                           \
                     outcome = "big-evicts";                                                   \
                 } else {                                                                      \
                     outcome = "big-dropped";                                                  \
                 }                                                                             \
             } else {                                                                          \
-                hist[hi++] = v;                                                               \
+                hist[hi++] = bits_##NAME(v);                                                               \
             }                                                                                 \
         }                                                                                     \
         mc_trans((int64_t)(fill + (size_t)extra));                                            \
@@ -495,8 +628,8 @@ static bool saw_evict, saw_drop;
             ng = hi - lo;                                                                     \
         for (size_t i = 0; i < ng && !mc.cur_failed; ++i) {                                   \
             TYPE v = NAME##_get(&c);                                                          \
-            if ((uint32_t)v != hist[lo])                                                      \
-                mc_fail("C19/get-oldest", "get %zu returned %lx, oldest is %lx", i, (unsigned long)v, (unsigned long)hist[lo]); \
+            if (bits_##NAME(v) != hist[lo])                                                   \
+                mc_fail("C19/get-oldest", "get %zu returned %llx, oldest is %llx", i, (unsigned long long)bits_##NAME(v), (unsigned long long)hist[lo]); \
             lo++;                                                                             \
         }                                                                                     \
         mc_trans((int64_t)ng);                                                                \
@@ -510,10 +643,10 @@ static bool saw_evict, saw_drop;
             if (hi - lo == cap) {                                                             \
                 if (ovr) {                                                                    \
                     lo++;                                                                     \
-                    hist[hi++] = v;                                                           \
+                    hist[hi++] = bits_##NAME(v);                                                           \
                 }                                                                             \
             } else {                                                                          \
-                hist[hi++] = v;                                                               \
+                hist[hi++] = bits_##NAME(v);                                                               \
             }                                                                                 \
         }                                                                                     \
         mc_trans(2);                                                                          \
@@ -524,14 +657,14 @@ static bool saw_evict, saw_drop;
             /* to empty, and one get beyond */                                                \
             while (lo < hi && !mc.cur_failed) {                                               \
                 TYPE v = NAME##_get(&c);                                                      \
-                if ((uint32_t)v != hist[lo])                                                  \
-                    mc_fail("C19/get-oldest", "final get returned %lx, oldest is %lx", (unsigned long)v, (unsigned long)hist[lo]); \
+                if (bits_##NAME(v) != hist[lo])                                               \
+                    mc_fail("C19/get-oldest", "final get returned %llx, oldest is %llx", (unsigned long long)bits_##NAME(v), (unsigned long long)hist[lo]); \
                 lo++;                                                                         \
             }                                                                                 \
             if (!mc.cur_failed) {                                                             \
                 TYPE v = NAME##_get(&c);                                                      \
                 if (v != 0)                                                                   \
-                    mc_fail("C19/get-empty-zero", "get on empty returned %lx", (unsigned long)v); \
+                    mc_fail("C19/get-empty-zero", "get on empty returned %llx", (unsigned long long)bits_##NAME(v)); \
                 check_observers_##NAME(&c, hist + lo, 0, cap, itmask);                        \
             }                                                                                 \
         }                                                                                     \
@@ -547,6 +680,13 @@ static bool saw_evict, saw_drop;
 EXPLORER(octet_ring, uint8_t, 0x11, 0xee, BIGVAL8)
 EXPLORER(ring16, uint16_t, 0x1234, 0xabcd, BIGVAL16)
 EXPLORER(ring32, uint32_t, 0x12345678u, 0xabcdef01u, BIGVAL32)
+#define BIGVALF(s) ((float)(((s) % 65521u) + 1u) * -0.25f)
+#define BIGVALD(s) (((double)(s) + 0.5) * 1.0e-3)
+#define BIGVAL64S(s) ((int64_t)(((uint64_t)(s) * 0x9e3779b97f4a7c15ull) | 1u))
+EXPLORER(ringf, float, 2.5f, -0.125f, BIGVALF)
+EXPLORER(ringd, double, -2.5, 1234.0625e-3, BIGVALD)
+EXPLORER(ring64s, int64_t, -2, 0x123456789abcdef0ll, BIGVAL64S)
+#define NTYPES 6
 
 static int
 push_unique(size_t *v, int n, int max, size_t x)
@@ -565,7 +705,7 @@ big_family(void)
 {
     static const size_t bq[] = { 256, 65536 };
     static const size_t bt[] = { 256, 32768, 65536, 131072 };
-    static const char *TN[3] = { "octet_ring", "ring16", "ring32" };
+    static const char *TN[NTYPES] = { "octet_ring", "ring16", "ring32", "ringf(float)", "ringd(double)", "ring64s(int64_t)" };
     static const char *DN[4] = { "none", "one", "all-but-one", "all" };
     const size_t *bds = mc_thorough() ? bt : bq;
     const int nb = mc_thorough() ? 4 : 2;
@@ -582,7 +722,7 @@ big_family(void)
             for (size_t i = 0; i < sizeof fc / sizeof fc[0]; ++i)
                 if (fc[i] <= cap)
                     nfill = push_unique(fills, nfill, 24, fc[i]);
-            for (int ty = 0; ty < 3; ++ty)
+            for (int ty = 0; ty < NTYPES; ++ty)
                 for (int ovr = 0; ovr < 2; ++ovr)
                     for (int ri = 0; ri < nrot; ++ri)
                         for (int fi = 0; fi < nfill; ++fi)
@@ -595,8 +735,14 @@ big_family(void)
                                         big_octet_ring(cap, ovr, rots[ri], fills[fi], extra, drain);
                                     else if (ty == 1)
                                         big_ring16(cap, ovr, rots[ri], fills[fi], extra, drain);
-                                    else
+                                    else if (ty == 2)
                                         big_ring32(cap, ovr, rots[ri], fills[fi], extra, drain);
+                                    else if (ty == 3)
+                                        big_ringf(cap, ovr, rots[ri], fills[fi], extra, drain);
+                                    else if (ty == 4)
+                                        big_ringd(cap, ovr, rots[ri], fills[fi], extra, drain);
+                                    else
+                                        big_ring64s(cap, ovr, rots[ri], fills[fi], extra, drain);
                                 }
         }
 }
@@ -608,25 +754,31 @@ main(int argc, char **argv)
     const size_t maxcap = mc_thorough() ? 10 : 5;
     for (size_t cap = 1; cap <= maxcap; ++cap) {
         /* one partition per (capacity, element type): independent searches */
-        if (mc_partition((int)(3 * (maxcap - cap) + 0), (int64_t)(3 * cap + 0)))
+        if (mc_partition((int)(NTYPES * (maxcap - cap) + 0), (int64_t)(NTYPES * cap + 0)))
             explore_octet_ring(cap, maxcap);
-        if (mc_partition((int)(3 * (maxcap - cap) + 1), (int64_t)(3 * cap + 1)))
+        if (mc_partition((int)(NTYPES * (maxcap - cap) + 1), (int64_t)(NTYPES * cap + 1)))
             explore_ring16(cap, maxcap);
-        if (mc_partition((int)(3 * (maxcap - cap) + 2), (int64_t)(3 * cap + 2)))
+        if (mc_partition((int)(NTYPES * (maxcap - cap) + 2), (int64_t)(NTYPES * cap + 2)))
             explore_ring32(cap, maxcap);
+        if (mc_partition((int)(NTYPES * (maxcap - cap) + 3), (int64_t)(NTYPES * cap + 3)))
+            explore_ringf(cap, maxcap);
+        if (mc_partition((int)(NTYPES * (maxcap - cap) + 4), (int64_t)(NTYPES * cap + 4)))
+            explore_ringd(cap, maxcap);
+        if (mc_partition((int)(NTYPES * (maxcap - cap) + 5), (int64_t)(NTYPES * cap + 5)))
+            explore_ring64s(cap, maxcap);
     }
     /* the structured large-capacity histories are an odometer: sharded case by case */
-    mc_partition(-1, 99);
+    mc_partition(-1, 199);
     big_family();
     /* vacuity is guarded by the orchestrator's required outcome classes
      * (put-evicts, put-dropped, get-empty, get-oldest, clear, ...): the
      * searches are spread over the shards, so no single process sees all */
-    char bound[700];
+    char bound[900];
     snprintf(bound, sizeof bound,
-             "capacities 1..%zu x element types u8/u16/u32 x two element values, all operations + re-initialisation of the used object "
+             "capacities 1..%zu x element types u8/u16/u32/float/double/int64 x two element values (fractions, negative and > 2^32 values for the last three), all operations + re-initialisation of the used object "
              "to capacities {cap-1,cap,cap+1,1,%zu} from every state of the home capacity, roots init / init+override(off) / init+override(on) / "
              "init of a 0xff object (cap<=3), observers and both iterators on 7 iterator-object histories in every state, to fixpoint; "
-             "capacities 2^{%s}-1..+1 x u8/u16/u32 x override off/on x rotation {0,1,cap-1} x fill levels {0,1,2,2^8-1..2^8+1,2^15-1..2^15+1,2^16-1..2^16+1,cap-1,cap} "
+             "capacities 2^{%s}-1..+1 x u8/u16/u32/float/double/int64 x override off/on x rotation {0,1,cap-1} x fill levels {0,1,2,2^8-1..2^8+1,2^15-1..2^15+1,2^16-1..2^16+1,cap-1,cap} "
              "x overfill 0..2 x drain {none,one,all-but-one,all}: structured histories with observers and both iterators (3 iterator-object histories) after fill, drain and wrap",
              maxcap, maxcap, mc_thorough() ? "8,15,16,17" : "8,16");
     mc_finish(true, bound);
